@@ -25,8 +25,11 @@ class Prop(RefProp):
         cases = []
         for _ in range(n):
             case = gen_pipes.gen_case(rng, self.profile)
-            if rng.random() < 0.12 and len(case['lib']) >= 2:
+            r = rng.random()
+            if r < 0.12 and len(case['lib']) >= 2:
                 parser_failure_family(rng, case)
+            elif r < 0.18 and len(case['lib']) >= 2:
+                gen_pipes.pype_out_containers(rng, case)
             cases.append(case)
         return cases
 
